@@ -32,10 +32,14 @@ ASSUMPTIONS = [
     'symmetry_conserving_bravyi_kitaev: number- and spin-conserving Hermitian Hamiltonians on an even number of orbitals',
 ]
 OPEN_STATEMENTS = [
-    'taper_spectrum: taper_off_qubits has exactly the spectrum of H on the joint +1 eigenspace (needs the unitary '
-    'equivalence of the Z-sectors of the fixed qubits): checked numerically (eigvalsh, 1e-9) on every generated case; '
-    'proved: the qubit re-indexing is the order-preserving bijection with "remove" exactly at the removed positions '
-    '(taper_reindex_spec) and the Pauli-table invariant of the fixed position (fixed_position_invariant)',
+    'taper_spectrum: proved (taper_off_qubits_invariant_subspace, with qbit_order in closed form: taper_qbit_order) for '
+    'runs whose reduced operator carries on every removed qubit only I/X (fixed Pauli Z) or only I/Z (fixed Pauli X or Y) '
+    '(counted as hypothesis(each removed qubit carries only I/X or only I/Z):True/False) in the exact regime: the tapered '
+    'operator is the restriction of the reduced operator to the invariant subspace with the removed qubits in |+> resp. '
+    '|0> (row sums over the removed register), hence its spectrum is contained in that of the reduced operator, which '
+    'agrees with H on the code space (reduce_terms_agrees_on_codespace); not proved: that every eigenvalue of H on the code '
+    'space is attained and the link between this sector and the joint +1 eigenspace of the original stabilizers; exactly '
+    'the spectrum of H on the joint +1 eigenspace is checked numerically (eigvalsh, 1e-9) on every generated case',
     'reduce_terms_agrees_on_codespace is proved at the live tolerance under the per-run exact-regime flag the Model '
     'computes (every `new_terms +=` exact; the driver reports it, the stream counts exact-regime(reduce/taper):True/False); '
     'runs whose flag is False (a partial sum non-zero but below 1e-8) are outside the theorem; the checks of '
@@ -435,10 +439,16 @@ def stream_taper(ctx):
                 reqs.append({'op': 'c16.taper', 'A': jH, 'stabs': jS, 'manual': man, 'fixed': fixed})
             metas.append((n, k, stab_ops, H, bad, jH, jS, f, ml, man, fixed))
     ans = ctx.driver.run(reqs)
+    treqs = [dict(r, op='c16.taper_hyp') for r in reqs if r['op'] == 'c16.taper']
+    thyp = iter(ctx.driver.run(treqs))
     dense_jobs = []
     for (n, k, stab_ops, H, bad, jH, jS, f, ml, man, fixed), m in zip(metas, ans):
         case = {'f': f, 'H': jH, 'stabilizers': jS, 'maintain_length': ml, 'manual_input': man, 'fixed_positions': fixed}
         st.case(case)
+        if f == 'taper':
+            hyp = next(thyp)
+            if 'ok' in m:
+                st.count('hypothesis(each removed qubit carries only I/X or only I/Z):%s' % hyp)
         st.count('%s:%s%s%s' % (f, 'manual' if man else 'auto', ':keep-length' if ml else '', ':' + bad if bad else ''))
         st.count('n=%d,k=%d' % (n, len(stab_ops)))
         import copy as _copy
